@@ -92,3 +92,44 @@ Definition stl_writes (now : str) (md : option wmeta) (items : list witem) : res
   end.
 Definition write_stl_to (now : str) (md : option wmeta) (items : list witem) (d : dest) : res nat :=
   match stl_writes now md items with Ok ws => run_writes ws d 0 | Err k => Err k | Panic p => Panic p end.
+
+(* The failing Read may also return its error TOGETHER WITH the last bytes it delivers (Read returns (n, err) with n > 0;
+   io.Reader allows it, and nothing obliges the stream to repeat the error afterwards: it may report end-of-file or go on).
+   readNBytes returns at the first error of a Read call whether or not bytes came with it (repo fix "STL block reader keeps
+   a read error that arrives together with the last bytes of a block"; io.ReadFull alone drops an error that comes with
+   the last requested bytes), so ReadFromSTL never calls Read again after a failing one and what the stream would do next
+   plays no role.  [_wd]: [data] is what the stream delivers in all, the Read that delivers its last byte fails: when a
+   block is completed by the last byte of [data], the error is returned before the block is looked at. *)
+Fixpoint tti_loop_fail_wd (fuel : nat) (data : str) (counts : list nat) (g : gsi) (tcp : Z) (acc : option N) (items : list ritem)
+  : res (list ritem) :=
+  match fuel with
+  | O => Err EOther
+  | S f =>
+    match read_n 128 data counts with
+    | RnEOF => Err EIO
+    | RnShort => Err EIO
+    | RnOk p rest cs =>
+      match rest with
+      | [] => Err EIO
+      | _ => do x <- tti_step g tcp acc items p;
+             let '(acc', items') := x in tti_loop_fail_wd f rest cs g tcp acc' items'
+      end
+    end
+  end.
+Definition read_stl_fail_wd (ignore_tcp : bool) (data : str) (counts : list nat) : res rdoc :=
+  match read_n 1024 data counts with
+  | RnOk b rest cs =>
+    match rest with
+    | [] => Err EIO
+    | _ =>
+      do g <- parse_gsi b;
+      if negb (nmem (g_cct g) stl_tables_existing) then Err EParse
+      else
+        let tcp := if ignore_tcp then 0%Z else g_tcp g in
+        do items <- tti_loop_fail_wd (S (length rest)) rest cs g tcp None [];
+        Ok (stl_doc_of g tcp items)
+    end
+  | _ => Err EIO
+  end.
+Definition read_stl_fail_at_wd (ignore_tcp : bool) (data : str) (k : nat) (counts : list nat) : res rdoc :=
+  read_stl_fail_wd ignore_tcp (firstn k data) counts.
